@@ -3,7 +3,7 @@ use crate::{rng::Rng, Ctx};
 
 const GT_CALLED: &[&str] = &["0/0", "0/1", "1/0", "1/1", "0|0", "0|1", "1|0", "1|1"];
 const GT_MISSING: &[&str] = &["./.", ".|.", "./0", "1/.", ".", ".|1"];
-const GT_MULTI: &[&str] = &["0/2", "2/1", "2/2", "3/0", "1|2", "2|0"];
+const GT_MULTI: &[&str] = &["0/2", "2/1", "2/2", "3/0", "1|2", "2|0", "0/10", "1|12", "10/1", "0|11"];
 const GT_PLOIDY: &[&str] = &["0", "1", "0/0/1", "1|1|1", "0/1/1/0"];
 
 pub struct Gen<'a> { pub rng: &'a mut Rng }
@@ -114,7 +114,7 @@ pub fn gen_c01(ctx: &Ctx, rng: &mut Rng, out: &mut Vec<String>) {
             // byte level (the model decodes the container itself); sample lists given by file are left to the `.cli` form
             if i % 3 == 0 && !sl.starts_with("S:") {
                 let rs = records_str(&recs);
-                let cs = crate::vcf::CallSet { cols: cols(ncols), recs: crate::create::parse_records(&rs), extras: i % 2 == 1 };
+                let cs = crate::vcf::CallSet { cols: cols(ncols), recs: crate::create::parse_records(&rs), extras: i % 2 == 1, wide: 0 };
                 if let Some(l) = crate::create::bytes_case(&cs, container, (i % 4) as u64, &c, &sl, "N", "0", "-", &rs) { out.push(l); }
             }
         }
@@ -154,11 +154,24 @@ pub fn gen_c08(ctx: &Ctx, rng: &mut Rng, out: &mut Vec<String>) {
             if container != "vcf" && (gt.contains("255") || gt.contains("2147483648") || gt.contains("62")) { continue; }
             if !ctx.tier_thorough && container == "vcfgz" && gt.len() > 3 { continue; }
             let rs = format!("chr2~77~{gt},0/1;chr2~78~0/1,1/1");
-            let cs = crate::vcf::CallSet { cols: cols(2), recs: crate::create::parse_records(&rs), extras: false };
+            let cs = crate::vcf::CallSet { cols: cols(2), recs: crate::create::parse_records(&rs), extras: false, wide: 0 };
             if let Some(l) = crate::create::bytes_case(&cs, container, 2, "s0,s1", "s:s0=A", "N", "0", "-", &rs) { out.push(l); }
         }
         // in a run with projection as well (precision fixed)
         if gt.len() <= 3 { out.push(format!("c08.cli\tvcf\tstdin\t4\t0\t0\ts0,s1\ts:s0=A,s1=A\tshape:3\t0\t4\tchr2~77~{gt},0/1;chr2~78~0/1,1/1")); }
+    }
+    // a record in which EVERY sample has the same other ploidy (chrY, MT: the BCF GT vector is then narrower / wider than that of the
+    // records before it), after and before ordinary diploid records; selected, unselected, all columns; VCF, BCF and byte level
+    for (k, odd) in ["0,1", "1,1", "0,.", "0/0/1,0/1/1", "./././.,0/1/0/1", "1,0"].into_iter().enumerate() {
+        for order in 0..3 {
+            let recs = match order { 0 => format!("chr2~10~0/1,1/1;chrY~5~{odd}"), 1 => format!("chr2~10~0/1,1/1;chr2~11~1|1,0/0;chrY~5~{odd};chr2~12~0/1,0/1"), _ => format!("chrY~5~{odd};chr2~10~0/1,1/1") };
+            for sl in ["s:s0=A", "s:s1=A", "N"] {
+                if !ctx.tier_thorough && (k + order) % 2 == 1 && sl != "N" { continue; }
+                for container in ["vcf", "bcf", "rawbcf"] { out.push(format!("c08.cli\t{container}\tpath\t4\t0\t0\ts0,s1\t{sl}\tN\t0\t-\t{recs}")); }
+                let cs = crate::vcf::CallSet { cols: cols(2), recs: crate::create::parse_records(&recs), extras: false, wide: 0 };
+                if let Some(l) = crate::create::bytes_case(&cs, "rawbcf", 0, "s0,s1", sl, "N", "0", "-", &recs) { out.push(l); }
+            }
+        }
     }
     // two and three selected columns: every ordered combination of (called, missing, multiallelic, not diploid) — a ploidy error must
     // abort the run wherever it stands relative to a skipped genotype; with and without projection, 1 and 2 populations
@@ -196,6 +209,8 @@ pub fn gen_c09(ctx: &Ctx, rng: &mut Rng, out: &mut Vec<String>) {
         for via_file in [false, true] {
             out.push(format!("c09.cli\tvcf\tpath\t4\t0\t0\t{}\t{}\tN\t0\t-\t{}", c.join(","), samples_arg(&base_order, &assign, unnamed, via_file), records_str(&recs)));
         }
+        // … and via a samples file that is a named pipe (what `-S <(…)` gives): same content, not a regular file
+        if i % 4 == 0 { out.push(format!("c09.cli\tvcf\tpath\t4\t0\t0\t{}\t{}\tN\t0\t-\t{}", c.join(","), samples_arg(&base_order, &assign, unnamed, true).replacen("S:", "F:", 1), records_str(&recs))); }
         // (b) permuted list entries (labels may change first-appearance order: axes permute; the model follows)
         for _ in 0..3 {
             let mut o = base_order.clone(); g.rng.shuffle(&mut o);
@@ -251,6 +266,7 @@ pub fn gen_c11(ctx: &Ctx, rng: &mut Rng, out: &mut Vec<String>) {
             out.push(format!("c11.mem\t{cols4}\t{sl}\t{proj}\t{}", records_str(&recs)));
         }
     } }
+    gen_c11_cohorts(ctx, rng, out);
     let nseq = if ctx.tier_thorough { 1000 } else { 120 };
     let nperm = if ctx.tier_thorough { 20 } else { 5 };
     for i in 0..nseq {
@@ -271,6 +287,33 @@ pub fn gen_c11(ctx: &Ctx, rng: &mut Rng, out: &mut Vec<String>) {
             out.push(format!("c11.cli\tvcf\tstdin\t4\t0\t0\t{cols4}\t{sl}\t{proj}\t0\t{}\t{}", if proj == "N" { "-" } else { "6" }, mk(&kinds, false)));
             out.push(format!("c11.cli\tbcf\tpath\t2\t2\t0\t{cols4}\t{sl}\t{proj}\t0\t{}\t{}", if proj == "N" { "-" } else { "6" }, mk(&k, false)));
         }
+    }
+}
+
+/// C11, cohorts: one population of 90-130 samples with projection, records whose called totals (> 170 chromosomes: beyond
+/// every precomputed table) go up and down along the stream — whole, every split point, permutations
+fn gen_c11_cohorts(ctx: &Ctx, rng: &mut Rng, out: &mut Vec<String>) {
+    let nseq = if ctx.tier_thorough { 12 } else { 3 };
+    for i in 0..nseq {
+        let n = 90 + (rng.below(41) as usize);
+        let m = 2 * (40 + rng.below(40) as usize);
+        let nrec = 3 + rng.below(4) as usize;
+        let recs: Vec<(String, usize, Vec<String>)> = (0..nrec).map(|r| {
+            let missing = [8usize, 3, 0, 5, 1, 9, 2][(r + i) % 7].min(n - 86);
+            let mut gts: Vec<String> = (0..n).map(|_| ["0", "1", "1", "2"][rng.below(4) as usize].to_string()).collect();
+            for k in 0..missing { let j = (k * 7 + r) % n; gts[j] = "m".into(); }
+            ("1".to_string(), 1 + r, gts)
+        }).collect();
+        let c = cols(n).join(",");
+        let proj = format!("shape:{}", m + 1);
+        out.push(format!("c11.mem\t{c}\tN\t{proj}\t{}", records_str(&recs)));
+        for cut in 1..nrec {
+            out.push(format!("c11.mem\t{c}\tN\t{proj}\t{}", records_str(&recs[..cut])));
+            out.push(format!("c11.mem\t{c}\tN\t{proj}\t{}", records_str(&recs[cut..])));
+        }
+        for _ in 0..3 { let mut p = recs.clone(); rng.shuffle(&mut p); out.push(format!("c11.mem\t{c}\tN\t{proj}\t{}", records_str(&p))); }
+        let mut rev = recs.clone(); rev.reverse();
+        out.push(format!("c11.mem\t{c}\tN\t{proj}\t{}", records_str(&rev)));
     }
 }
 
@@ -318,7 +361,7 @@ pub fn gen_c10(ctx: &Ctx, rng: &mut Rng, out: &mut Vec<String>) {
                     out.push(format!("c10.cli\tvcf\t{}\t4\t0\t0\t{c}\t{sl}\t{proj}\t{strict}\t{}\t{}", if fault % 2 == 0 { "path" } else { "stdin" }, if proj == "N" { "-" } else { "6" }, records_str(&recs)));
                     if (pos + fault + i) % 3 == 0 {
                         let rs = records_str(&recs);
-                        let cs = crate::vcf::CallSet { cols: cols(ncols), recs: crate::create::parse_records(&rs), extras: false };
+                        let cs = crate::vcf::CallSet { cols: cols(ncols), recs: crate::create::parse_records(&rs), extras: false, wide: 0 };
                         let container = if fault >= 2 || i % 2 == 0 { "vcf" } else { "rawbcf" };
                         if let Some(l) = crate::create::bytes_case(&cs, container, 0, &c, &sl, &proj, &strict.to_string(), if proj == "N" { "-" } else { "6" }, &rs) { out.push(l); }
                     }
@@ -391,6 +434,12 @@ pub fn gen_c02(ctx: &Ctx, rng: &mut Rng, out: &mut Vec<String>) {
         }
         out.push(format!("c02.mem\t{}\t{sl}\t{proj}\t{}", cols(ncols).join(","), records_str(&recs)));
     }
+    // one population of 1..=140 samples (thorough 300), every size once: all samples homozygous ALT / REF / one missing, projected to
+    // one individual — cohort sizes on and around powers of two and table ends
+    for n in 1..=(if ctx.tier_thorough { 300usize } else { 140 }) {
+        let rec = |kind: usize| -> String { (0..n).map(|j| match kind { 0 => "2", 1 => if j == 0 && n > 1 { "m" } else { "2" }, _ => if j % 2 == 0 { "2" } else { "0" } }).collect::<Vec<_>>().join(",") };
+        out.push(format!("c02.mem\t{}\tN\tshape:3\t1~1~{};1~2~{};1~3~{}", cols(n).join(","), rec(0), rec(1), rec(2)));
+    }
     // cohorts of hundreds of samples, one record each (this is where binomials leave the f64 range)
     let cohort_sizes: &[usize] = if ctx.tier_thorough { &[90, 300, 520, 600, 1500, 3000] } else { &[90, 300, 520, 600] };
     for &n in cohort_sizes {
@@ -430,11 +479,15 @@ pub fn gen_c12(ctx: &Ctx, rng: &mut Rng, out: &mut Vec<String>) {
         if bad_last { let k = assign.iter().position(|a| a.is_some() || sl == "N").unwrap_or(0); let last = recs.len() - 1; recs[last].2[k] = "0/0/1".into(); }
         let proj = if i % 2 == 0 && sl != "N" { format!("shape:{}", sizes.iter().map(|n| (1 + g.rng.range(1, 2 * *n as u64)).to_string()).collect::<Vec<_>>().join(",")) } else { "N".to_string() };
         bcf_safe(&mut recs);
-        out.push(format!("c12.same\t{}\t{}\t{sl}\t{proj}\t0\t{}\t{}", i % 2, cols(ncols).join(","), if proj == "N" { "-" } else { "6" }, records_str(&recs)));
+        // a quarter of the call sets carry 126 / 197 / 266 further INFO definitions ahead of FORMAT/GT in the header: GT's index in the
+        // BCF string dictionary then needs the largest 8-bit value, a 16-bit key below 256 and one above
+        let wide = if i % 4 == 3 { 126 + (i % 3) * 70 + (i % 3) / 2 } else { 0 };
+        let ex = if wide > 0 { format!("w{wide}") } else { (i % 2).to_string() };
+        out.push(format!("c12.same\t{ex}\t{}\t{sl}\t{proj}\t0\t{}\t{}", cols(ncols).join(","), if proj == "N" { "-" } else { "6" }, records_str(&recs)));
         // byte level: the same call set in each container, the model decoding the very bytes handed to the binary
         if nrec <= 200 {
             let rs = records_str(&recs);
-            let cs = crate::vcf::CallSet { cols: cols(ncols), recs: crate::create::parse_records(&rs), extras: i % 2 == 1 };
+            let cs = crate::vcf::CallSet { cols: cols(ncols), recs: crate::create::parse_records(&rs), extras: wide == 0 && i % 2 == 1, wide };
             for (ci, container) in ["vcf", "vcfgz", "bcf", "rawbcf"].into_iter().enumerate() {
                 if let Some(l) = crate::create::bytes_case(&cs, container, ((i + ci) % 4) as u64, &cols(ncols).join(","), &sl, &proj, "0", if proj == "N" { "-" } else { "6" }, &rs) { out.push(l); }
             }
